@@ -4,6 +4,8 @@ EXTENDS Rat, Sequences, FiniteSets, TLC, Json, Randomization
 
 \* pinball loss of estimate e for observation o at fraction tau (a rational)
 Pinball(tau, e, o) == IF e < o THEN Mul(tau, R(o - e)) ELSE Mul(Sub(R(1), tau), R(e - o))
+\* the same loss for a whole-number estimate e and the observation o + 1/2 (estimates kept in an integer type, observations not)
+PinballHalf(tau, e, o) == IF e <= o THEN Mul(tau, Frac(2 * (o - e) + 1, 2)) ELSE Mul(Sub(R(1), tau), Frac(2 * (e - o) - 1, 2))
 MeanPinball(tau, c, s) == Div(SumSeq([i \in 1..Len(s) |-> Pinball(tau, c, s[i])], Len(s)), R(Len(s)))
 
 \* q is a tau-quantile of the sample: #{x < q}/n <= tau <= #{x <= q}/n
@@ -60,6 +62,7 @@ TauSet == <<Frac(1, 8), Frac(1, 2), Frac(3, 4)>>
 Emit == Mode # "cases" \/ PrintT(<<"CASE", ToJson([
            obs |-> s, est |-> est, taus |-> TauSet,
            score |-> [i \in 1..Len(s) |-> [k \in 1..3 |-> Pinball(TauSet[k], est[i], s[i])]],
+           scoreh |-> [i \in 1..Len(s) |-> [k \in 1..3 |-> PinballHalf(TauSet[k], est[i], s[i])]],
            mean |-> [k \in 1..3 |-> Div(SumSeq([i \in 1..Len(s) |-> Pinball(TauSet[k], est[i], s[i])], Len(s)), R(Len(s)))],
            truth |-> T1,
            mape |-> Mape([i \in 1..Len(s) |-> R(est[i])], Truth),
